@@ -224,6 +224,20 @@ def check(pid, reg, args, seed, t_start):
         samples.append({'kani_cmd': kr['cmd'], 'wall_s': round(kr['wall'], 1)})
         assumptions.append('woven (cfg(kani)-only additions): ' + '; '.join(woven))
 
+    # ---------------- S: structural scans of the current source ----------------
+    for sname in reg.get('S', []):
+        if not only_filter(args, sname):
+            continue
+        import scans
+        st, detail = getattr(scans, sname)(scratch)
+        ob = {'id': sname, 'class': 'S', 'backend': 'source scan (rsscan)', 'status': st, 'clause': scans.CLAUSES.get(sname), 'solver_s': 0.0}
+        if st == 'FAILED':
+            ob['detail'] = detail
+            violations.append(make_violation(pid, ob, None, None))
+        elif st == 'UNDECIDED':
+            ob['reason'] = detail
+        obligations.append(ob)
+
     # ---------------- V: Verus on extracted functions ----------------
     vspecs = [v for v in reg.get('V', []) if only_filter(args, v['id'])]
     vdir = os.path.join(scratch, 'verus_units')
